@@ -71,6 +71,20 @@ MutateEnumeratorG(ev, tag, i, val) == tag \in DOMAIN ev.en /\ i \in DOMAIN ev.en
                                       /\ IsNeg(val) = IsNeg(ev.en[tag].vals[i])     \* same base type
 MutateEnumeratorE(ev, tag, i, val) == [ev EXCEPT !.en = [@ EXCEPT ![tag].vals = [@ EXCEPT ![i] = val]]]
 
+\* packing: ffi.cdef(..., packed=True) for the chunk that declares the struct ("cdef"), __attribute__((packed))
+\* on the C side ("c"), or both.  Recorded in the same set as the flexible items: <<"pkc", key>>, <<"pkw", key>>.
+\* Only structs/unions of plain fields that hold no aggregate by value and are held by value nowhere.
+PkC(fl, key) == <<"pkc", key>> \in fl
+PkW(fl, key) == <<"pkw", key>> \in fl
+MutatePackG(ev, fl, key, where) ==
+  /\ where \in {"cdef", "c", "both"}
+  /\ key \in DOMAIN ev.su /\ ev.su[key].complete /\ SubSeq(key[2], 1, 1) # "$" /\ PlainFields(ev, key)
+  /\ \A f \in DOMAIN ev.su[key].fields : NeedsNow(ev.su[key].fields[f][2]) = {}
+  /\ \A k2 \in DOMAIN ev.su : key \notin FieldNeeds(ev.su, k2)
+  /\ ~PkC(fl, key) /\ ~PkW(fl, key)
+MutatePackE(fl, key, where) ==
+  fl \cup (IF where \in {"cdef", "both"} THEN {<<"pkc", key>>} ELSE {}) \cup (IF where \in {"c", "both"} THEN {<<"pkw", key>>} ELSE {})
+
 AddDotsG(ev, fl, item) ==
   /\ item \notin fl
   /\ \/ item[1] = "su" /\ item[2] \in DOMAIN ev.su /\ ev.su[item[2]].complete /\ SubSeq(item[2][2], 1, 1) # "$"
@@ -104,6 +118,15 @@ Eff(ev, c, fl) == [ev EXCEPT !.su = [k \in DOMAIN ev.su |-> IF k \in EffFlex(ev,
 EffOwn(ev, c, fl, key) == [ev EXCEPT !.su = [k \in DOMAIN ev.su |->
                               IF k # key /\ k \in EffFlex(ev, fl) THEN c.su[k] ELSE ev.su[k]]]
 
+\* packed layout (fields of plain types one after the other, alignment 1)
+RECURSIVE PSum(_, _, _)
+PSum(e, fs, i) == IF i = 0 THEN 0 ELSE PSum(e, fs, i - 1) + SizeOf(e, fs[i][2])
+LOff(e, key, i, pk) == IF ~pk THEN OffsetOf(e, key, i) ELSE IF key[1] = "union" THEN 0 ELSE PSum(e, e.su[key].fields, i - 1)
+LSize(e, key, pk) == IF ~pk THEN SizeOf(e, key)
+                     ELSE IF key[1] = "union" THEN MaxOf({SizeOf(e, e.su[key].fields[i][2]) : i \in DOMAIN e.su[key].fields})
+                     ELSE PSum(e, e.su[key].fields, Len(e.su[key].fields))
+LAlign(e, key, pk) == IF pk THEN 1 ELSE AlignOf(e, key)
+
 \* disagreements between what the cdef implies and what the C compiler says, for struct `key`
 SizeBad(ev, c, fl, key) ==
   \E i \in DOMAIN ev.su[key].fields :
@@ -111,20 +134,20 @@ SizeBad(ev, c, fl, key) ==
      IN SizeOf(Eff(ev, c, fl), f[2]) # SizeOf(c, c.su[key].fields[FieldIdx(c.su[key].fields, f[1])][2])
 OffsetBad(ev, c, fl, key) ==
   \E i \in DOMAIN ev.su[key].fields :
-     OffsetOf(EffOwn(ev, c, fl, key), key, i) # OffsetOf(c, key, FieldIdx(c.su[key].fields, ev.su[key].fields[i][1]))
-TotalBad(ev, c, fl, key) == SizeOf(EffOwn(ev, c, fl, key), key) # SizeOf(c, key)
-AlignBad(ev, c, fl, key) == AlignOf(EffOwn(ev, c, fl, key), key) # AlignOf(c, key)
+     LOff(EffOwn(ev, c, fl, key), key, i, PkC(fl, key)) # LOff(c, key, FieldIdx(c.su[key].fields, ev.su[key].fields[i][1]), PkW(fl, key))
+TotalBad(ev, c, fl, key) == LSize(EffOwn(ev, c, fl, key), key, PkC(fl, key)) # LSize(c, key, PkW(fl, key))
+AlignBad(ev, c, fl, key) == LAlign(EffOwn(ev, c, fl, key), key, PkC(fl, key)) # LAlign(c, key, PkW(fl, key))
 
 \* the aggregate as the module must show it when it is usable: the cdef's fields with the
 \* compiler's facts
-ApiAggObs(ev, c, key) ==
+ApiAggObs(ev, c, fl, key) ==
   LET fs == ev.su[key].fields
   IN [ kind |-> key[1], complete |-> ev.su[key].complete,
        fields |-> [i \in DOMAIN fs |-> << fs[i][1],
                         IF ev.su[key].complete /\ c.su[key].complete /\ HasField(c.su[key].fields, fs[i][1])
-                        THEN OffsetOf(c, key, FieldIdx(c.su[key].fields, fs[i][1])) ELSE Unk,
+                        THEN LOff(c, key, FieldIdx(c.su[key].fields, fs[i][1]), PkW(fl, key)) ELSE Unk,
                         fs[i][3] >>],
-       size |-> SizeOf(c, key), align |-> AlignOf(c, key) ]
+       size |-> LSize(c, key, PkW(fl, key)), align |-> LAlign(c, key, PkW(fl, key)) ]
 
 (* ------------------------------------------------------------------ the ideal *)
 \* "ok" | "error" | "any"
@@ -155,7 +178,9 @@ DependsOnBroken(ev, c, fl, t) ==
 (* ------------------------------------------------------------------ the implementation model *)
 ModelSU(ev, c, fl, key) ==
   IF ~ev.su[key].complete THEN "ok"
-  ELSE LET check == key \notin EffFlex(ev, fl)        \* _CFFI_F_CHECK_FIELDS unless tp.partial
+  ELSE LET \* _CFFI_F_CHECK_FIELDS unless tp.partial -> SF_STD_FIELD_POS; _CFFI_F_PACKED -> sflags |= SF_PACKED.
+           \* Variant "packed-wipes-checkfields": sflags = SF_PACKED drops SF_STD_FIELD_POS of a packed struct
+           check == key \notin EffFlex(ev, fl) /\ ~(variant = "packed-wipes-checkfields" /\ PkC(fl, key))
        IN IF SizeBad(ev, c, fl, key) /\ (check \/ variant # "nosizecheck")
           THEN "error"                                 \* do_realize_lazy_struct: always SF_STD_FIELD_POS
           ELSE IF check /\ (OffsetBad(ev, c, fl, key) \/ (TotalBad(ev, c, fl, key) /\ variant # "nototal")
@@ -208,7 +233,7 @@ AInit == Init /\ variant \in Variants /\ cw = EnvInit /\ flex = {} /\ phase = "d
 
 Decl == phase = "decl" /\ Next /\ cw' = cenv' /\ UNCHANGED <<variant, flex, phase>>
 
-NMut == Cardinality({i \in DOMAIN hist : hist[i][1] \in {"MutateField", "MutateConst", "MutateEnumerator"}})
+NMut == Cardinality({i \in DOMAIN hist : hist[i][1] \in {"MutateField", "MutateConst", "MutateEnumerator", "MutatePack"}})
 
 MutateField(key, how, i, arg) ==
   /\ NMut < MaxMut /\ MutateFieldG(cenv, key, how, i, arg)
@@ -225,9 +250,14 @@ MutateEnumerator(tag, i, val) ==
   /\ cenv' = MutateEnumeratorE(cenv, tag, i, val)
   /\ hist' = Append(hist, <<"MutateEnumerator", <<tag, i, val>>>>)
   /\ phase' = "mut" /\ UNCHANGED <<variant, cw, flex>>
+MutatePack(key, where) ==
+  /\ NMut < MaxMut /\ MutatePackG(cenv, flex, key, where)
+  /\ flex' = MutatePackE(flex, key, where)
+  /\ hist' = Append(hist, <<"MutatePack", <<key[1], key[2], where>>>>)
+  /\ phase' = "mut" /\ UNCHANGED <<variant, cw, cenv>>
 AddDots(item) ==
   /\ AddDotsG(cenv, flex, item)
-  /\ Cardinality(flex) < 1
+  /\ Cardinality({x \in flex : x[1] \in {"su", "k", "gv"}}) < 1
   /\ flex' = flex \cup {item}
   /\ hist' = Append(hist, <<"AddDots", <<item[1], item[2]>>>>)
   /\ phase' = "mut" /\ UNCHANGED <<variant, cw, cenv>>
@@ -238,6 +268,7 @@ ANext ==
         (how = "type" \/ arg = "char") /\ MutateField(key, how, i, arg)
   \/ \E n \in DOMAIN cenv.kc, v \in MutVals : MutateConst(n, v)
   \/ \E g \in DOMAIN cenv.en, i \in 1..2, v \in {"8", "-8"} : MutateEnumerator(g, i, v)
+  \/ \E key \in DOMAIN cenv.su, w \in {"cdef", "c", "both"} : MutatePack(key, w)
   \/ \E key \in DOMAIN cenv.su : AddDots(<<"su", key>>)
   \/ \E n \in DOMAIN cenv.kc : AddDots(<<"k", n>>)
   \/ \E g \in DOMAIN cenv.gv : AddDots(<<"gv", g>>)
